@@ -70,3 +70,8 @@ VARIANTS += [
     V("twin-root-length-temporary", BI, "            W = self._randn(initial_W_seed) * math.sqrt(self._end - self._start)",
       "            length = self._round(t1) - self._round(t0)\n            W = self._randn(initial_W_seed) * math.sqrt(length)", expect="silent"),
 ]
+
+VARIANTS += [
+    # positive fixture of R04.12 (the law over all distinct intervals of seeded random histories)
+    V("random-histories-space-time-noise-scale", BI, "                c = v * _rsqrt3\n", "                c = v * 0.5\n", rule="R04.12"),
+]
